@@ -14,7 +14,8 @@ for sid in sorted(os.listdir('/verif/seeded')):
     if only and not any(o in sid for o in only): continue
     meta=json.load(open(f'{d}/meta.json'))
     prop=meta['property']
-    subprocess.run(['git','-C',WT,'apply',f'{d}/patch.diff'],check=True)
+    if subprocess.run(['git','-C',WT,'apply',f'{d}/patch.diff']).returncode != 0:
+        rows.append((sid,prop,'PATCH-DOES-NOT-APPLY',False,[],meta['summary'][:110])); print(rows[-1][:4]); continue
     try:
         r=subprocess.run(['/verif/bin/hvc','check','-root',WT,'-property',prop,'-noevidence'],capture_output=True,text=True,env=dict(os.environ,HVC_REPLAYDIR='/var/tmp/hvc-seed-replay'))
     finally:
